@@ -406,3 +406,172 @@ def enum_terms(atoms, fields, max_depth, max_nodes, max_width=3):
     for n in range(1, max_nodes + 1):
         res.extend(gen(max_depth, n))
     return res
+
+
+# ------------------------------------------------------------------ constraint histories
+
+class NotRecord(Exception):
+    pass
+
+
+class Constraints(Graph):
+    """Model of a HISTORY of the constraint operations of the type inference over a pool
+    of references (property C16, "sets of constraints"):
+
+      unify(i, j)        the two references denote the same type;
+      field(i, f, j)     `i.f = j`: i is a record that has field f of type j -- an open
+                         record (or an unknown) gains the field, a closed record must
+                         already have it ("a closed record missing an addressed field");
+      elem(l, e)         `e in l`: e is a scalar (Singular) and l is a list of e;
+      close(i)           the record i denotes has exactly the fields known now; this is
+                         a statement about the TYPE, i.e. about the whole class of
+                         references unified with i so far, whichever of them it is
+                         stated through.
+
+    The state is a union-find over unknowns (one per pool node / auxiliary term) with one
+    shape per class; `clash` is set as soon as the constraints have no common instance.
+    unify/field/elem are monotone constraints (their order is immaterial); close reads the
+    current field set, so it is not moved across other operations by the check."""
+
+    def clone(self):
+        c = Constraints.__new__(Constraints)
+        c.parent = list(self.parent)
+        c.shape = list(self.shape)
+        c.clash = self.clash
+        return c
+
+    def new(self, shape):
+        self.parent.append(len(self.parent))
+        self.shape.append(shape)
+        return len(self.parent) - 1
+
+    def kind(self, i):
+        s = self.shape[self.find(i)]
+        return s[1] if s[0] == 'atom' else s[0]
+
+    def fields(self, i):
+        s = self.shape[self.find(i)]
+        return sorted(s[1], key=fkey) if s[0] in ('open', 'closed') else []
+
+    def same(self, i, j):
+        return self.find(i) == self.find(j)
+
+    def field(self, i, f, j):
+        self.unify(i, self.new(('open', {f: j})))
+
+    def elem(self, l, e):
+        self.unify(e, self.new(('atom', 'Singular')))
+        self.unify(l, self.new(('list', e)))
+
+    def close(self, i):
+        r = self.find(i)
+        s = self.shape[r]
+        if s[0] not in ('open', 'closed'):
+            raise NotRecord(s[0])
+        self.shape[r] = ('closed', dict(s[1]))
+
+    def apply(self, op, refs):
+        """op = ['U', i, j] | ['F', i, field, j] | ['E', list, element] | ['C', i]
+        over positions in `refs` (pool node indices)."""
+        k = op[0]
+        if k == 'U':
+            self.unify(refs[op[1]], refs[op[2]])
+        elif k == 'F':
+            self.field(refs[op[1]], op[2], refs[op[3]])
+        elif k == 'E':
+            self.elem(refs[op[1]], refs[op[2]])
+        elif k == 'C':
+            self.close(refs[op[1]])
+        else:
+            raise ValueError('unknown op %r' % (op,))
+
+    def succ(self, c):
+        s = self.shape[c]
+        if s[0] == 'list':
+            return [self.find(s[1])]
+        if s[0] in ('open', 'closed'):
+            return [self.find(x) for _, x in sorted(s[1].items(),
+                                                    key=lambda fv: fkey(fv[0]))]
+        return []
+
+    def acyclic(self, starts):
+        state = {}
+
+        def visit(c):
+            if state.get(c) == 1:
+                return False
+            if state.get(c) == 2:
+                return True
+            state[c] = 1
+            for x in self.succ(c):
+                if not visit(x):
+                    return False
+            state[c] = 2
+            return True
+        return all(visit(self.find(s)) for s in starts)
+
+    def path_counts(self, entry):
+        """entry: list of node indices, one per way the operation enters the structure
+        (with multiplicity).  -> {class: number of incoming uses within the reachable
+        part}; a class with a count > 1 is visited along two different paths."""
+        u = {}
+        seen = set()
+        st = []
+        for e in entry:
+            c = self.find(e)
+            u[c] = u.get(c, 0) + 1
+            st.append(c)
+        while st:
+            c = st.pop()
+            if c in seen:
+                continue
+            seen.add(c)
+            for x in self.succ(c):
+                u[x] = u.get(x, 0) + 1
+                st.append(x)
+        return u
+
+    def shared_entry(self, entry, composite=False):
+        u = self.path_counts(entry)
+        return any(n > 1 and (not composite or self.shape[c][0] != 'atom')
+                   for c, n in u.items())
+
+
+def op_entries(op, refs):
+    """The references through which one operation enters the pool (for sharing tests):
+    a reference reachable from two of them, or twice from one, is visited twice."""
+    k = op[0]
+    if k == 'U':
+        return [refs[op[1]], refs[op[2]]]
+    if k == 'F':
+        return [refs[op[1]], refs[op[3]]]
+    if k == 'E':
+        return [refs[op[1]], refs[op[2]]]
+    return [refs[op[1]]]
+
+
+def op_tree_result(op, before):
+    """Tree formulation of one operation for the cross-check: `before` maps the op's
+    reference positions to tree terms (no sharing between them); -> {position: tree or
+    BOT} for the positions the operation constrains."""
+    k = op[0]
+    if k == 'U':
+        m = meet(before[op[1]], before[op[2]])
+        return {op[1]: m, op[2]: m}
+    if k == 'F':
+        m = meet(before[op[1]], ('open', ((op[2], before[op[3]]),)))
+        if m == BOT:
+            return {op[1]: BOT, op[3]: BOT}
+        return {op[1]: m, op[3]: dict(m[1])[op[2]]}
+    if k == 'E':
+        e = meet(before[op[2]], ('atom', 'Singular'))
+        if e == BOT:
+            return {op[1]: BOT, op[2]: BOT}
+        m = meet(before[op[1]], ('list', e))
+        if m == BOT:
+            return {op[1]: BOT, op[2]: BOT}
+        return {op[1]: m, op[2]: m[1]}
+    if k == 'C':
+        t = before[op[1]]
+        return {op[1]: ('closed', t[1])}
+    raise ValueError(op)
